@@ -4,7 +4,9 @@ mod ctx;
 mod fam_cipher;
 mod fam_codec;
 mod fam_frame;
+mod fam_round;
 mod gen;
+mod refdec;
 mod toy;
 mod util;
 
@@ -46,6 +48,7 @@ fn main() {
         "cipher-sm" => fam_cipher::cipher_sm(&mut ctx),
         "codec" => fam_codec::codec(&mut ctx),
         "entry" => fam_codec::entry(&mut ctx),
+        "roundtrip" => fam_round::roundtrip(&mut ctx),
         f => {
             eprintln!("unknown family {f}");
             std::process::exit(2);
